@@ -28,7 +28,20 @@ def observe(segs, cfg):
     trace = [(n, a) for (n, a, _) in res.trace]
     envs = [(e.sender, list(e.recipients), e.flatten()) for e in res.envelopes]
     err = type(res.error).__name__ if res.error is not None and res.error != 'blocked' else res.error
-    return res, (res.output, trace, envs, err)
+    output = res.output
+    names = [n for n, a in trace]
+    if 'TLSHANDSHAKE' in names:
+        # an accepted STARTTLS (mutated streams only): client bytes that were already buffered at that moment are
+        # discarded (C08 demands that), so what follows legitimately depends on the segmentation - compare up to there
+        k = names.index('TLSHANDSHAKE')
+        envs = envs[:sum(1 for n in names[:k] if n == 'HAVE_DATA')]
+        trace = trace[:k + 1]
+        pos = output.find(b'\r\n220 ')
+        if pos != -1:
+            end = output.find(b'\r\n', pos + 2)
+            output = output[:end + 2] if end != -1 else output
+        err = None
+    return res, (output, trace, envs, err)
 
 
 def segmentations(data, lines, extra_cuts):
